@@ -688,6 +688,9 @@ func applyMetadata(dst, applied map[string]any) {
 	if fs, ok := amd["finalizers"]; ok {
 		dmd["finalizers"] = fs
 	}
+	if mf, ok := amd["managedFields"]; ok {
+		dmd["managedFields"] = mf
+	}
 	arefs, _ := amd["ownerReferences"].([]any)
 	drefs, _ := dmd["ownerReferences"].([]any)
 	for _, ar := range arefs {
@@ -734,11 +737,51 @@ func (s *Store) Patch(_ context.Context, obj client.Object, p client.Patch, opts
 	if err != nil {
 		panic("kube model: patch data: " + err.Error())
 	}
+	i := s.find(group, kind, c.NS, c.Name)
+	if p.Type() == types.JSONPatchType {
+		// Only the two JSON patches Crossplane sends are modelled: they
+		// rewrite metadata.managedFields (which the model does not keep beyond
+		// the applying manager's entry) under a resourceVersion test.
+		var ops []any
+		if err := json.Unmarshal(data, &ops); err != nil {
+			panic("kube model: JSON patch is not an array: " + err.Error())
+		}
+		if i < 0 {
+			c.Err = true
+			s.log(c)
+			return kerrors.NewNotFound(gr(group, kind), c.Name)
+		}
+		md := metaOf(s.entries[i].doc)
+		for _, o := range ops {
+			om, _ := o.(map[string]any)
+			path := str(om, "path")
+			switch {
+			case path == "/metadata/resourceVersion":
+				if str(om, "value") != str(md, "resourceVersion") {
+					c.Err = true
+					s.log(c)
+					return kerrors.NewConflict(gr(group, kind), c.Name, errString("the object has been modified"))
+				}
+			case strings.HasPrefix(path, "/metadata/managedFields"):
+				if str(om, "op") == "replace" {
+					delete(md, "managedFields")
+				}
+			default:
+				panic("kube model: JSON patch path " + path + " is not modelled")
+			}
+		}
+		s.log(c)
+		fromDoc(s.entries[i].doc, obj)
+		return nil
+	}
 	patch := map[string]any{}
 	if err := json.Unmarshal(data, &patch); err != nil {
 		panic("kube model: patch is not a JSON object: " + err.Error())
 	}
-	i := s.find(group, kind, c.NS, c.Name)
+	if p.Type() == types.ApplyPatchType && po.FieldManager != "" {
+		// server-side apply records the applying manager
+		metaOf(patch)["managedFields"] = []any{map[string]any{"manager": po.FieldManager, "operation": "Apply"}}
+	}
 	switch p.Type() {
 	case types.ApplyPatchType:
 		if c.Name == "" {
@@ -767,7 +810,6 @@ func (s *Store) Patch(_ context.Context, obj client.Object, p client.Patch, opts
 			md["uid"] = "uid-" + strconv.Itoa(s.uid)
 			md["generation"] = int64(1)
 			md["creationTimestamp"] = createdAt
-			delete(md, "managedFields")
 			s.entries = append(s.entries, &entry{group: group, kind: kind, ns: c.NS, name: c.Name, doc: patch})
 			c.Effect = true
 			if f == FaultErrEffect {
